@@ -1,3 +1,81 @@
 // Kani harnesses mounted into crates/rip-provider-openresponses/src/lib.rs (cfg(kani) only).
 #![allow(unused_imports, dead_code)]
 use super::*;
+include!("/verif/harness/common.rs");
+
+fn stub_uuid_v4() -> Uuid {
+    Uuid::from_bytes([7u8; 16])
+}
+fn stub_now_ms() -> u64 {
+    kani::any()
+}
+fn stub_to_string<T: core::fmt::Display + ?Sized>(_t: &T) -> String {
+    String::new()
+}
+
+// C15(c) + C01: one provider_event frame per parsed server-sent event (Done / InvalidJson / Event), carrying the
+// raw payload unchanged, numbered contiguously from the mapper's position; no derived text delta unless the event
+// is an output_text delta. Shape = parsed-event kind; symbolic: the mapper's start seq, the two raw payload bytes.
+macro_rules! c15_mapper {
+    ($name:ident, $kind:expr, $is_event:expr) => {
+        #[kani::proof]
+        #[kani::unwind(6)]
+        #[kani::stub(std::fmt::format, stub_fmt_format)]
+        #[kani::stub(uuid::Uuid::new_v4, stub_uuid_v4)]
+        #[kani::stub(now_ms, stub_now_ms)]
+        #[kani::stub(alloc::string::ToString::to_string, stub_to_string)]
+        fn $name() {
+            let start: u64 = kani::any();
+            kani::assume(start < u64::MAX - 2);
+            let b0: u8 = kani::any();
+            let b1: u8 = kani::any();
+            kani::assume(b0 < 128 && b1 < 128);
+            let mut raw = String::with_capacity(2);
+            raw.push(b0 as char);
+            raw.push(b1 as char);
+            let parsed = ParsedEvent {
+                kind: $kind,
+                event: None,
+                raw,
+                data: None,
+                errors: Vec::new(),
+                response_errors: Vec::new(),
+            };
+            let mut mapper = EventFrameMapper { session_id: String::new(), seq: start };
+            let frames = mapper.map(&parsed);
+            assert!(frames.len() == 1, "a parsed event without text delta must map to exactly one frame");
+            assert!(frames[0].seq == start, "provider frame does not continue the numbering");
+            assert!(mapper.seq == start + 1, "mapper position did not advance by the number of frames");
+            match &frames[0].kind {
+                EventKind::ProviderEvent { status, raw, data, .. } => {
+                    if $is_event {
+                        assert!(*status == ProviderEventStatus::Event && raw.is_none() && data.is_none());
+                    } else {
+                        let r = raw.as_ref().expect("raw payload carried");
+                        assert!(r.len() == 2 && r.as_bytes()[0] == b0 && r.as_bytes()[1] == b1, "raw payload altered");
+                        assert!(data.is_none());
+                        if matches!($kind, ParsedEventKind::Done) {
+                            assert!(*status == ProviderEventStatus::Done, "terminal marker not reported as done");
+                        } else {
+                            assert!(*status == ProviderEventStatus::InvalidJson, "invalid JSON payload not reported as such");
+                        }
+                    }
+                }
+                _ => assert!(false, "first mapped frame is not a provider_event"),
+            }
+            kani::cover!(true, "decided");
+            core::mem::forget(frames);
+            core::mem::forget(parsed);
+            core::mem::forget(mapper);
+        }
+    };
+}
+c15_mapper!(c15_mapper_done, ParsedEventKind::Done, false);
+c15_mapper!(c15_mapper_invalid_json, ParsedEventKind::InvalidJson, false);
+c15_mapper!(c15_mapper_event_nodata, ParsedEventKind::Event, true);
+
+#[kani::proof]
+fn c00_setup_probe() {
+    let x: u8 = kani::any();
+    assert!(x as u16 <= 255);
+}
